@@ -378,7 +378,7 @@ SCOPE = {
     'C09': [(_T, 'Table.merge'), (_T, 'Table._fast_merge')],
     'C10': [(_T, 'Table.concat'), ('biom/__init__.py', 'concat')],
     'C11': [(_T, 'Table.partition'), (_T, 'Table.collapse')],
-    'C12': [(_T, 'Table.subsample')],
+    'C12': [(_T, 'Table.subsample'), (_U, 'generate_subsamples')],
     'C13': [(_T, 'Table.transform'), (_T, 'Table.norm'), (_T, 'Table.pa'),
             (_T, 'Table.rankdata')],
     'C14': [(_T, 'Table.from_hdf5'), (_P, 'parse_biom_table'),
@@ -467,6 +467,45 @@ PROPS['C13'].setdefault('scope', {}).update({
 PROPS['C20']['rules'] += [R3.rule_profile_confined_raise]
 PROPS['C16']['rules'] += [R3.rule_metadata_canonical]
 PROPS['C07']['rules'] += [R3.rule_metadata_canonical]
+from . import rules_round4 as R4  # noqa: E402
+with open(_os.path.join(_os.path.dirname(_os.path.dirname(
+        _os.path.abspath(__file__))), 'properties.jsonl')) as _fh:
+    for _line in _fh:
+        _d = _json.loads(_line)
+        _files = {f for f in _d['anchors']['files'] if f.endswith('.py')}
+        for _r, _rid in ((R4.rule_call_signature, 'AG-CALLSIG'),
+                         (R4.rule_format_template, 'TA-FMTSTR'),
+                         (R4.rule_scoped_yield, 'OR-SCOPEDYIELD'),
+                         (R4.rule_open_encoding, 'TA-CODEC')):
+            if _d['id'] in SCOPE and _rid != 'TA-CODEC':
+                PROPS[_d['id']]['rules'].append(
+                    G.closure_scoped(_r, [_rid], SCOPE[_d['id']]))
+            else:
+                PROPS[_d['id']]['rules'].append(partial(_r, rels=_files))
+for _pid in ('C05', 'C07', 'C16', 'C19'):
+    PROPS[_pid]['rules'].append(R4.rule_no_matrix_cache)
+for _pid in ('C11', 'C09', 'C10', 'C05'):
+    PROPS[_pid]['rules'].append(R4.rule_parallel_lists)
+PROPS['C02']['rules'] += [R4.rule_every_vector_written]
+PROPS['C03']['rules'] += [R4.rule_every_vector_written]
+PROPS['C01']['rules'] += [R4.rule_aligned_recovery, R4.rule_category_sets]
+PROPS['C04']['rules'] += [R4.rule_aligned_recovery]
+PROPS['C09']['rules'] += [R4.rule_callbacks]
+PROPS['C13']['rules'] += [R4.rule_callbacks]
+PROPS['C09'].setdefault('scope', {})['OR-CALLBACK'] = (
+    lambda f: f == 'Table.merge')
+PROPS['C13'].setdefault('scope', {})['OR-CALLBACK'] = (
+    lambda f: f == 'Table.transform')
+PROPS['C06']['rules'] += [R4.rule_transpose_returns]
+PROPS['C18']['rules'] += [R4.rule_mapping_separator]
+PROPS['C15']['rules'] += [R4.rule_record_metadata_required]
+PROPS['C20']['rules'] += [R4.rule_state_validated]
+PROPS['C19']['rules'] += [R4.rule_stat_labels]
+PROPS['C16']['rules'] += [rules_table.rule_or_coperm]
+PROPS['C07']['rules'] += [ax_kinds(['KERNEL'])]
+for _p in PROPS.values():
+    for _k, _v in R4.RULE_TEXT.items():
+        _p['rule_texts'].setdefault(_k, ' '.join(_v.split()))
 for _p in PROPS.values():
     for _k, _v in R3.RULE_TEXT.items():
         _p['rule_texts'].setdefault(_k, ' '.join(_v.split()))
